@@ -341,6 +341,9 @@ func runC07(c *Ctx, r *Report) {
 	r.Rule("C07.R10", "index inventory: every index and slice bound applied to a slice or string in packages eval, object and extensions is proven within the length of the very operand it is applied to (dominating comparisons with len of the same value, range loops over it, make() with that length, constants below a proven minimum length, callers' arguments), belongs to the callback-argument rule C07.R2, or is one of the 40 named sites whose argument was read off the code (binary-search results, sort.Interface callbacks, Len()/Elements() agreement, registry minimums); anything else is reported")
 	r.Rule("C07.R16", "vacated cells are not zeroed: no slices.Delete / DeleteFunc / Compact / CompactFunc / clear on the storage field of a container of package object (Rest, Range and iteration hand out values sharing the backing array with their own length)")
 	c.checkNoClearingOfSharedStorage(r, "C07.R16")
+	r.Rule("C07.R17", "the minimum the callbacks rely on is established where they are called: every call of Extension.Callback in package eval lies on the length >= MinArgs edge of a test whose length is the length of the very list handed to the callback (edge by edge through phis)")
+	c.checkArgCountTestedOnTheListHandedOver(r, "C07.R17")
+	r.Floor("C07.R17", 1)
 	c.checkSliceBounds(r, "C07.R10", map[string]bool{"eval": true, "object": true, "extensions": true})
 
 	// shared: the register typestate rules the panic table relies on for MakeRegister / ReleaseRegister
